@@ -14,8 +14,9 @@
     * every invariant route registered with the crisis keeper (Generated/C02Wiring.lean) must be covered by the
       inductive-invariant theorems of its owning property (C03, C07, C10, C11).
   The full statement is FALSE on the current code: two reviewed sites are findings (F2 cdp debt split,
-  F11/F12 kavadist); the F10 site (issuance seizure of locked coins) sits in a blocker that is never called. For F2 and F12 the arithmetic is transcribed
-  and the counterexample proved here; the witnesses are replayed on the real app by harness/cmd/c02.
+  F11 kavadist partner rewards); the F10 site (issuance seizure of locked coins) sits in a blocker that is
+  never called; F12 (kavadist nil amount on a zero mint) has been fixed in /repo and is now a theorem.
+  For F2 and F11 the arithmetic is transcribed and the counterexample proved here; the witnesses are replayed on the real app by harness/cmd/c02.
   PARTIAL: SDK invariants (bank, staking, distribution), the SDK's own begin/end blockers, gas, and the
   modules' full transition systems are not modelled here; they are explored by the history runner, which
   asserts every registered invariant after every EndBlock and treats any begin/end-block panic as a violation.
@@ -43,7 +44,7 @@ theorem C02_sites_nonempty :
            "community.BeginBlocker", "hard.BeginBlocker", "incentive.BeginBlocker",
            "kavadist.BeginBlocker", "pricefeed.EndBlocker"], b ∈ wiredBlockers := by decide +kernel
 
-/-- exactly two reviewed sites are NOT discharged: they fire on reachable states (findings F2, F11/F12).
+/-- exactly two reviewed sites are NOT discharged: they fire on reachable states (findings F2, F11).
     The prose property is false at these sites; see the counterexamples below and findings/C02-*.md. -/
 theorem C02_undischarged_sites_are_the_known_findings :
     findingSites = [("x/cdp", "k.LiquidateCdps"), ("x/kavadist", "k.MintPeriodInflation")] := by decide +kernel
@@ -101,22 +102,53 @@ theorem C02_cdp_debt_split_single_partial (d debt : Int) (hd : 0 < d) :
 
 example : debtShares [7] 10000003 = [10000003] := C02_cdp_debt_split_single_partial 7 10000003 (by decide)
 
-/-! ## F12 — kavadist infrastructure periods: zero mint -/
+/-! ## F12 (fixed) and F11 — kavadist infrastructure periods -/
 
-/-- FULL STATEMENT (false): `∀ minted amount, 0 ≤ amount → infraStep minted amount ≠ .panic`.
-    Counterexample: an amount that truncates to zero (two blocks inside one second, or a tiny supply). -/
-theorem C02_kavadist_zero_mint_counterexample :
-    ¬ (∀ minted amount : Int, 0 ≤ amount → infraStep minted amount ≠ .panic) := by
-  intro h
-  exact h 0 0 (by decide) (by decide)
-
-/-- PARTIAL: a non-zero mint is accumulated without panic -/
-theorem C02_kavadist_nonzero_mint_partial (minted amount : Int) (h : amount ≠ 0) :
+/-- F12, after the fix in /repo ("return a well-formed zero coin"): accumulating the coin returned by
+    `mintInflationaryCoins` never panics, whatever the amount (zero when two blocks share a second) -/
+theorem C02_kavadist_mint_step_never_panics (minted amount : Int) :
     infraStep minted amount = .ok (minted + amount) := by
   unfold infraStep mintResult infraAccumulate
-  have h' : (amount == 0) = false := by simpa using h
-  simp only [h', Bool.false_eq_true, ite_false]
+  by_cases h : amount = 0
+  · subst h; simp
+  · have h' : (amount == 0) = false := by simpa using h
+    simp only [h', Bool.false_eq_true, ite_false]
 
-example : infraStep 10 5 = .ok 15 := by decide
+example : infraStep 10 0 = .ok 10 := by decide
+
+/-- F11, FULL STATEMENT (false): "paying the partners never panics",
+      `∀ minted elapsed partners, 0 ≤ elapsed → (∀ r ∈ partners, 0 ≤ r) → payPartners minted elapsed partners ≠ .panic`.
+    Counterexample: 100 coins minted in 6 s, one partner at 50 per second. Params validation does not relate
+    partner rewards to the infrastructure inflation, so this is a reachable configuration. -/
+theorem C02_kavadist_partner_rewards_counterexample :
+    ¬ (∀ (minted elapsed : Int) (partners : List Int), 0 ≤ elapsed → (∀ r ∈ partners, 0 ≤ r) →
+        payPartners minted elapsed partners ≠ .panic) := by
+  intro h
+  exact h 100 6 [50] (by decide) (by decide) (by decide)
+
+/-- F11 PARTIAL: when the minted amount covers all partner rewards for the elapsed time, the partner loop
+    succeeds and hands the rest to the core-reward loop -/
+theorem C02_kavadist_partner_rewards_partial (elapsed : Int) (partners : List Int) (minted : Int)
+    (h : sumInts (partners.map (· * elapsed)) ≤ minted) (hn : ∀ r ∈ partners, 0 ≤ r * elapsed) :
+    payPartners minted elapsed partners = .ok (minted - sumInts (partners.map (· * elapsed))) := by
+  induction partners generalizing minted with
+  | nil => simp [payPartners, sumInts]
+  | cons r rest ih =>
+    have hs : sumInts ((r :: rest).map (· * elapsed)) = r * elapsed + sumInts (rest.map (· * elapsed)) :=
+      sumInts_cons _ _
+    have hrest : 0 ≤ sumInts (rest.map (· * elapsed)) :=
+      sumInts_nonneg _ (by
+        intro x hx
+        simp only [List.mem_map] at hx
+        obtain ⟨q, hq, rfl⟩ := hx
+        exact hn q (by simp [hq]))
+    rw [hs] at h ⊢
+    unfold payPartners
+    have h1 : ¬ minted < r * elapsed := by omega
+    simp only [h1, ite_false]
+    rw [ih (minted - r * elapsed) (by omega) (fun q hq => hn q (by simp [hq]))]
+    congr 1; omega
+
+example : payPartners 1000 6 [50, 20] = .ok 580 := by decide
 
 end KV.Safe
